@@ -525,6 +525,18 @@ class Folder:
         if not _known(*args) or not _known(*kwargs.values()):
             # allow hasattr etc. to fall through as UNKNOWN
             return UNKNOWN
+        # list(SomeEnum) / tuple(SomeEnum): the members in definition order
+        if isinstance(f, ast.Name) and f.id in ("list", "tuple") and \
+                f.id not in env and len(args) == 1 and not kwargs and \
+                isinstance(args[0], ClassRef) and self.is_enum(args[0].cls):
+            mem = self.enum_members(args[0].cls)
+            seen, out = set(), []
+            for n, v in mem.items():
+                if v in seen:
+                    continue        # aliases are not iterated
+                seen.add(v)
+                out.append(EnumMember(args[0].cls, n, v))
+            return out if f.id == "list" else tuple(out)
         if isinstance(f, ast.Name) and f.id in _SAFE_FUNCS and \
                 f.id not in env and self.world.lookup(mod, f.id) is None:
             a2 = [x.value if isinstance(x, EnumMember) else x for x in args]
